@@ -194,6 +194,13 @@ class XExprEvaluator(ModelVisitor):
         if self.debug:            
             print("    result: is_x=%s val=%d" % (str(self.is_x), int(self.val)))
                     
+    def visit_expr_unary(self, e):
+        # The only unary operator is bit-wise negation (at the width
+        # of the operand)
+        e.expr.accept(self)
+        if not self.is_x:
+            self.val = ValueScalar((~int(self.val)) & ((1 << e.expr.width()) - 1))
+
     def visit_expr_fieldref(self, e : ExprFieldRefModel):
         e.fm.accept(self)
         
